@@ -426,6 +426,7 @@ func (d *DiskQueue) truncateWriteFile() error {
 		return err
 	}
 	if fi.Size() > d.writePos {
+		defer d.verifCrashPoint("o_trunc")
 		return os.Truncate(fn, d.writePos)
 	}
 	return nil
